@@ -164,7 +164,13 @@ func (a *archiver) worker(workerID string) {
 		case <-controlChans.PauseCh:
 			logger.Debug("received pause event")
 			verifhook.At("arch.paused", workerID)
-			controlChans.ResumeCh <- struct{}{}
+			// Wait to be resumed, but not beyond shutdown: nobody resumes a stopping pipeline
+			select {
+			case controlChans.ResumeCh <- struct{}{}:
+			case <-a.ctx.Done():
+				logger.Debug("shutting down while paused")
+				return
+			}
 			verifhook.At("arch.woken", workerID)
 			logger.Debug("received resume event")
 		case seed, ok := <-a.inputCh:
